@@ -147,7 +147,9 @@ pub fn feed(case: &StreamCase, cuts: &[usize]) -> (Vec<Res>, Vec<Res>) {
                 }
                 Ok(Ok(StunPacketDecodedValue::Decoded((pkt, consumed)))) => {
                     real.push(Res::Decoded { packet: pkt.as_ref().to_vec(), consumed });
-                    if !matches!(exp.last(), Some(Res::Decoded { .. })) || consumed > data.len() {
+                    // any divergence (kind, packet bytes or consumed count) ends the feed: it is what gets
+                    // reported, and past it `start`/`have` would no longer describe the real decoder
+                    if real.last() != exp.last() || consumed > data.len() {
                         break 'outer;
                     }
                     off += consumed;
